@@ -412,7 +412,7 @@ def replay(case, rec):
 
 
 def units(tier, seed):
-    n = 40 if tier == "quick" else 1000
+    n = 30 if tier == "quick" else 1000
     return [{"name": f"machine{k:02d}", "kind": "machine", "n": n} for k in range(16)]
 
 
